@@ -6,6 +6,7 @@ package rt
 
 import (
 	"context"
+	"errors"
 
 	"go.uber.org/cff"
 )
@@ -31,6 +32,9 @@ type H interface {
 	End(id int, ctx context.Context) error
 	// Probe records the evaluation of directive argument k.
 	Probe(k int)
+	// Ident reports whether user identifier k still denoted the user's
+	// variable when a directive argument mentioning it was evaluated.
+	Ident(k int, ok bool)
 	// Run-time values of directive arguments.
 	Conc(k int) int
 	Bool(k int) bool
@@ -43,6 +47,17 @@ type H interface {
 // the harness and yields the value unchanged.
 func Arg[T any](h H, k int, v T) T {
 	h.Probe(k)
+	return v
+}
+
+// ErrMark is the value user variables named "err" hold in generated programs.
+var ErrMark = errors.New("user err variable")
+
+// Seen wraps a directive argument expression that mentions a user variable
+// whose name generated code also uses; ok tells whether the name still
+// resolved to the user's variable.
+func Seen[T any](h H, k int, ok bool, v T) T {
+	h.Ident(k, ok)
 	return v
 }
 
